@@ -106,8 +106,12 @@ def cases(draw, tier):
         cfg["activate"] = False
         start = next((i for i, s_ in enumerate(spec["states"]) if "start_value" in cfg and (s_.get("value", s_["id"]) == cfg["start_value"])), 0)
         for c in spec["cbs"]:
-            if c["group"] == "enter" and c.get("async") and (c["scope"][0] == "generic" or c["scope"][1] == start):
-                c["yields"] = max(c.get("yields", 0), 2)
+            if c["group"] == "enter" and (c["scope"][0] == "generic" or c["scope"][1] == start):
+                if c.get("async"):
+                    c["yields"] = max(c.get("yields", 0), 2)
+                # what happens to events an enter callback had already queued when the activation is cancelled is not
+                # specified (a cancellation is not a failing callback): the cancelled activation queues nothing
+                c["sends"] = {k: v for k, v in c.get("sends", {}).items() if k != "0"}
         hist.append({"op": "cancel_activation", "ticks": draw(st.integers(1, 3))})
         hist.append({"op": "activate"})
     for step in draw(gen.history(spec, max_steps=8 if tier == "quick" else 14)):
